@@ -26,6 +26,19 @@ type concCase struct {
 	Kind    string  `json:"kind"` // "S"
 	Init    *string `json:"init"`
 	Threads [][]opx `json:"threads"`
+	// Delay != nil: a CONTROLLED schedule (see delayed.go).  The run happens in a child
+	// process under strace; every worker is locked to its own OS thread; the first
+	// <Syscall> of each thread is delayed by DelayMs at its entry.  Thread 1.. first run
+	// their first operation (its delay is harmless: nobody else is active), then thread 0
+	// starts its program (its first <Syscall> is stretched to DelayMs), and OffsetMs later
+	// the other threads run the rest of theirs -- inside thread 0's stretched operation.
+	Delay *delaySpec `json:"delay,omitempty"`
+}
+
+type delaySpec struct {
+	Syscall  string `json:"syscall"`
+	DelayMs  int    `json:"delay_ms"`
+	OffsetMs int    `json:"offset_ms"`
 }
 
 func genConc(r *common.Rand) concCase {
@@ -71,56 +84,103 @@ func genConc(r *common.Rand) concCase {
 	return cc
 }
 
-func runConc(cc concCase) {
-	id := run.NewID()
+// a prepared case: its own directory with the initial file
+type concPrep struct {
+	cc      concCase
+	base    string
+	path    string
+	initDoc *jv
+}
+
+func prepConc(cc concCase) concPrep {
 	base, err := os.MkdirTemp("", "c18s")
 	if err != nil {
 		panic(err)
 	}
-	defer os.RemoveAll(base)
-	path := filepath.Join(base, "config.json")
-	var initDoc *jv
+	p := concPrep{cc: cc, base: base, path: filepath.Join(base, "config.json")}
 	if cc.Init != nil {
-		os.WriteFile(path, []byte(*cc.Init), 0o600)
-		initDoc, _ = parseJSON([]byte(*cc.Init))
+		os.WriteFile(p.path, []byte(*cc.Init), 0o600)
+		p.initDoc, _ = parseJSON([]byte(*cc.Init))
 	}
-	fs, err := credentials.NewFileStore(path)
-	if err != nil {
-		run.Count("conc:loaderror")
+	return p
+}
+
+// runConc runs one case (controlled when cc.Delay is set, free-running otherwise).
+func runConc(cc concCase) { runConcBatch([]concCase{cc}) }
+
+// runConcBatch: the callers run in a CHILD process (a data race inside the
+// library can kill or hang the process: fatal "concurrent map writes", a
+// corrupted map).  Free-running cases share one child; a crash or hang is
+// pinned to a case by re-running the batch's cases one by one.
+func runConcBatch(cases []concCase) {
+	var free []concPrep
+	for _, cc := range cases {
+		p := prepConc(cc)
+		if cc.Delay != nil {
+			id := run.NewID()
+			results, why := execDelayed(cc, p.path)
+			switch {
+			case results != nil:
+				run.Count("conc:controlled-" + cc.Delay.Syscall)
+				judgeConc(id, p, results)
+			case why == "crashed" || why == "hang":
+				run.OracleFail(id, "conc-"+why, "the process died or hung under concurrent Get/Put/Delete calls on one store", cc)
+			default:
+				run.Count("conc:delayed-run-" + why)
+			}
+			os.RemoveAll(p.base)
+			continue
+		}
+		free = append(free, p)
+	}
+	if len(free) == 0 {
 		return
 	}
-	ctx := context.Background()
-	results := make([][]string, len(cc.Threads))
-	var wg sync.WaitGroup
-	start := make(chan struct{})
-	for i, ops := range cc.Threads {
-		results[i] = make([]string, len(ops))
-		wg.Add(1)
-		go func(i int, ops []opx) {
-			defer wg.Done()
-			<-start
-			for j, o := range ops {
-				switch o.Op {
-				case "G":
-					c, err := fs.Get(ctx, o.Addr)
-					if err != nil {
-						results[i][j] = resultStr(nil, err)
-					} else {
-						results[i][j] = credStr(c)
-					}
-				case "P":
-					results[i][j] = resultStr(nil, fs.Put(ctx, o.Addr, o.cred()))
-				case "D":
-					results[i][j] = resultStr(nil, fs.Delete(ctx, o.Addr))
-				}
-				if (i+j)%2 == 0 {
-					runtime.Gosched()
-				}
+	defer func() {
+		for _, p := range free {
+			os.RemoveAll(p.base)
+		}
+	}()
+	all, why := execFree(free)
+	if all != nil {
+		for i, p := range free {
+			id := run.NewID()
+			if all[i] == nil {
+				run.Count("conc:loaderror")
+				continue
 			}
-		}(i, ops)
+			judgeConc(id, p, all[i])
+		}
+		return
 	}
-	close(start)
-	wg.Wait()
+	if why != "crashed" && why != "hang" {
+		run.Count("conc:free-run-" + why)
+		return
+	}
+	// pin the failure
+	pinned := false
+	for _, p := range free {
+		for try := 0; try < 3 && !pinned; try++ {
+			q := prepConc(p.cc)
+			_, w := execFree([]concPrep{q})
+			os.RemoveAll(q.base)
+			if w == "crashed" || w == "hang" {
+				run.OracleFail(run.NewID(), "conc-"+w, "the process died or hung under concurrent Get/Put/Delete calls on one store", p.cc)
+				pinned = true
+			}
+		}
+		if pinned {
+			break
+		}
+	}
+	if !pinned {
+		run.OracleFail(run.NewID(), "conc-"+why, fmt.Sprintf("the process died or hung while running %d concurrent cases (not reproduced one by one)", len(free)), free[0].cc)
+	}
+}
+
+func judgeConc(id string, p concPrep, results [][]string) {
+	cc, base, path, initDoc := p.cc, p.base, p.path, p.initDoc
+	ctx := context.Background()
 	fail := func(sig, msg string) { run.OracleFail(id, sig, msg, cc) }
 	doc, mode, bad := readDoc(path)
 	if bad {
@@ -296,4 +356,45 @@ func runConc(cc concCase) {
 		sort.Strings(keys)
 		run.Nontrivial("S|" + strings.Join(keys, "|"))
 	}
+}
+
+func doOp(fs *credentials.FileStore, o opx) string {
+	ctx := context.Background()
+	switch o.Op {
+	case "G":
+		c, err := fs.Get(ctx, o.Addr)
+		if err != nil {
+			return resultStr(nil, err)
+		}
+		return credStr(c)
+	case "P":
+		return resultStr(nil, fs.Put(ctx, o.Addr, o.cred()))
+	case "D":
+		return resultStr(nil, fs.Delete(ctx, o.Addr))
+	}
+	return "badop"
+}
+
+// runFree: free-running goroutines on one store (executed in the child).
+func runFree(fs *credentials.FileStore, threads [][]opx) [][]string {
+	results := make([][]string, len(threads))
+	var wg sync.WaitGroup
+	start := make(chan struct{})
+	for i, ops := range threads {
+		results[i] = make([]string, len(ops))
+		wg.Add(1)
+		go func(i int, ops []opx) {
+			defer wg.Done()
+			<-start
+			for j, o := range ops {
+				results[i][j] = doOp(fs, o)
+				if (i+j)%2 == 0 {
+					runtime.Gosched()
+				}
+			}
+		}(i, ops)
+	}
+	close(start)
+	wg.Wait()
+	return results
 }
